@@ -40,6 +40,20 @@ PROBES = Path(__file__).resolve().parent.parent / "probes" / "select"
 
 
 # ---------------------------------------------------------------------------------------------- helpers
+# symptoms of the MACHINE failing under the run (disk full, out of memory / processes, go toolchain unable to produce
+# export data): such a run says nothing about mockery and must never become a verdict
+ENV_FAILURE = re.compile(r"no space left on device|cannot allocate memory|resource temporarily unavailable|too many open files|"
+                         r"signal: killed|internal error: package \S+ without types|fork/exec .*: |disk quota exceeded|"
+                         r"input/output error|read-only file system|go-build/\S+: no such file or directory|"
+                         r"could not import \S+ \(open |cannot find package .* in std", re.I)
+
+
+def check_environment(res, what):
+    m = ENV_FAILURE.search(res.err + res.out)
+    if m:
+        raise MachineryError(f"the environment failed during {what} ({m.group(0)!r}): " + (res.err + res.out)[-400:])
+
+
 def run_bin(ctx, cwd, args=(), env=None, timeout=180, tag="t"):
     """Thread-safe variant of ctx.run_mockery (own trace file inside cwd's parent scratch)."""
     binp = ctx.mockery()
@@ -64,7 +78,10 @@ def run_bin(ctx, cwd, args=(), env=None, timeout=180, tag="t"):
             except ValueError:
                 pass
         tfile.unlink()
-    return RunResult(code, out, err, time.time() - t, to, evs)
+    res = RunResult(code, out, err, time.time() - t, to, evs)
+    if code != 0:
+        check_environment(res, f"mockery {' '.join(args)} in {cwd}")
+    return res
 
 
 def tlc_job(ctx, name, module, cfg, workers=4, timeout=1500, coverage=False):
@@ -1068,5 +1085,16 @@ def replay_filter(ctx, sel_cases, rec_cases):
     raise MachineryError("replay file has neither a Selection case nor a Recursive world")
 
 
+def guarded(fn):
+    """An operating-system failure of the harness itself (disk full, too many processes, ...) is a machinery error
+    (exit 2), never a Python traceback with exit status 1."""
+    def wrapped(ctx):
+        try:
+            return fn(ctx)
+        except OSError as ex:
+            raise MachineryError(f"operating system error in the harness: {ex!r}")
+    return wrapped
+
+
 if __name__ == "__main__":
-    main("C07", run)
+    main("C07", guarded(run))
